@@ -9,6 +9,7 @@ script = {"hid": str, "lib": path | null, "ops": [op...]}
   {"op": "load", "name": th, "limit": null | "start" | [ty, name]}
   {"op": "fault", "name": th}          load with an exception injected while th's own items are parsed (half way)
   {"op": "touch", "name": th, "const": cname}     append a constant item to the scratch copy of th's file, new mtime
+  {"op": "reimport", "name": th, "imports": [..]} give the scratch copy of th's file another import list, new mtime
   {"op": "items", "names": [th...]}    dump per-item extension names of the cached theories (canonical process only)
 Nothing under the repository is written: with "lib" set, the two path helpers of logic/basic.py are redirected to the
 scratch directory before the first load (path resolution only).  No verdict is computed here.
@@ -73,9 +74,10 @@ def run(script_path, out_path):
     out = open(out_path, "w")
     tid = 0
     edits = []
+    reimports = []
     hist = []
     for op in script["ops"]:
-        ev = {"hid": script["hid"], "op": op["op"], "hist": list(hist), "edits": list(edits)}
+        ev = {"hid": script["hid"], "op": op["op"], "hist": list(hist), "edits": list(edits), "reimports": [list(r) for r in reimports]}
         t0 = time.time()
         try:
             if op["op"] == "import":
@@ -124,6 +126,17 @@ def run(script_path, out_path):
                 os.utime(path, (old + dt, old + dt))
                 edits.append([op["name"], op["const"]])
                 ev["edits"] = list(edits)
+            elif op["op"] == "reimport":
+                # the scratch copy of th's file gets another import list (and a new modification time)
+                ev["name"] = op["name"]
+                path = basic.user_file(op["name"])
+                data = json.load(open(path, encoding="utf-8"))
+                data["imports"] = list(op["imports"])
+                old = os.path.getmtime(path)
+                json.dump(data, open(path, "w", encoding="utf-8"))
+                os.utime(path, (old + 10, old + 10))
+                reimports.append([op["name"], list(op["imports"])])
+                ev["reimports"] = [list(r) for r in reimports]
             elif op["op"] == "items":
                 tab = {}
                 for th in op["names"]:
